@@ -397,6 +397,15 @@ func runC20(w *h.W, batch int) {
 				q := "k1:g" + fmt.Sprint(qr.Intn(3))
 				if qr.Chance(1, 3) {
 					q = "*"
+				} else if qr.Chance(1, 2) {
+					// a '|' byte inside the filter part that is not the pipe separator (quoted value, raw string, in-list element)
+					g := "g" + fmt.Sprint(qr.Intn(3))
+					q = h.Pick(qr, []string{
+						`k1:` + g + ` or k1:"a|b"`,
+						`k1:in(` + g + `, "p|q")`,
+						"k1:" + g + " or k1:`r|s`",
+						`(k1:'x | fields y' or k1:` + g + `)`,
+					})
 				}
 				size := qr.Range(1, 40)
 				asc := qr.Bool()
